@@ -5,3 +5,4 @@ pub mod mirdebug;
 pub mod names;
 pub mod render;
 pub mod run;
+pub mod tree;
